@@ -185,6 +185,8 @@ class Builder:
             # written before the cell it fills
             self.rng.shuffle(deck.cells)
             deck.tags.add('cells.unordered')
+        if self.rng.random() < 0.3:
+            M.shuffle_options(deck, self.rng)
         return deck
 
 
